@@ -868,7 +868,7 @@ class C14(Property):
 
     def cases(self, seed, tier, widen=1):
         rng = random.Random(f'C14-{seed}')
-        n = (8000 if tier == 'quick' else 60000) * widen
+        n = (8000 if tier == 'quick' else 200000) * widen
         cs = [dict(c) for c in WITNESSES.values()]
         cs += [_gen_case(rng) for _ in range(n)]
         return cs
